@@ -31,6 +31,7 @@ type unit struct {
 	started  uint64
 	returned uint64
 	ctxDone  uint64
+	waitFor  func() bool // closer: having done its own work, it waits for a worker of the application to finish
 }
 
 type closerObj struct{ f func() error }
@@ -96,6 +97,9 @@ func (u *unit) closerAny(s *simrt.Sim) any {
 		u.started = s.Stamp()
 		s.Logf("closer %d start", u.id)
 		s.Sleep(u.delay)
+		if u.waitFor != nil {
+			s.WaitUntil("closer.waits-for-worker", 0, u.waitFor)
+		}
 		u.returned = s.Stamp()
 		s.Logf("closer %d return", u.id)
 		switch u.result {
@@ -360,6 +364,7 @@ func closerManager(s *simrt.Sim) {
 	}
 	var late []*unit
 	var lateErr []error
+	closerWaits := false
 	if scenario == 2 {
 		doClose("close0", 0)
 		if !s.Join(10*time.Second, "close0") {
@@ -420,11 +425,20 @@ func closerManager(s *simrt.Sim) {
 		doClose("close1", delays[s.Choose(len(delays), "closeAt")])
 		doClose("close2", delays[s.Choose(len(delays), "closeAt2")])
 	case 4:
-		for i, n := 0, 1+s.Choose(2, "nlate"); i < n; i++ {
+		nlate := 1 + s.Choose(2, "nlate")
+		lateDone := make([]bool, nlate)
+		if len(closers) > 0 && s.Choose(2, "closerWaitsForWorker") == 0 {
+			// an ordinary closer: it stops a worker goroutine of the application and waits for it - and that worker
+			// is the one registering closers while the manager runs
+			closerWaits = true
+			closers[0].waitFor = func() bool { return lateDone[0] }
+		}
+		for i, n := 0, nlate; i < n; i++ {
 			u := mkUnit(s, 40+i, true)
 			late = append(late, u)
 			lateErr = append(lateErr, nil)
 			i := i
+			defer func() { lateDone[i] = true }() // (never leave a closer waiting once the run is judged)
 			name := fmt.Sprintf("addcloser%d", i)
 			names = append(names, name)
 			at := delays[s.Choose(len(delays), "lateAt")]
@@ -435,6 +449,7 @@ func closerManager(s *simrt.Sim) {
 				if lateErr[i] != nil {
 					u.starts = -1 // rejected
 				}
+				lateDone[i] = true
 			})
 		}
 		doClose("close1", 60*time.Millisecond)
@@ -540,14 +555,16 @@ func closerManager(s *simrt.Sim) {
 		}
 	}
 	if grace != nil {
-		if maxCloser > *grace+maxInjected && fatal == 0 {
-			s.Fail("fatal-missing", fmt.Sprintf("closers took %v, grace period %v, but the fatal-shutdown action did not fire", maxCloser, *grace))
-		}
-		if maxCloser+maxInjected < *grace && fatal > 0 {
-			s.Fail("fatal-spurious", fmt.Sprintf("closers took %v, grace period %v, but the fatal-shutdown action fired", maxCloser, *grace))
-		}
-		if fatal > 1 {
-			s.Fail("fatal-twice", "fatal-shutdown action fired more than once")
+		if !closerWaits {
+			if maxCloser > *grace+maxInjected && fatal == 0 {
+				s.Fail("fatal-missing", fmt.Sprintf("closers took %v, grace period %v, but the fatal-shutdown action did not fire", maxCloser, *grace))
+			}
+			if maxCloser+maxInjected < *grace && fatal > 0 {
+				s.Fail("fatal-spurious", fmt.Sprintf("closers took %v, grace period %v, but the fatal-shutdown action fired", maxCloser, *grace))
+			}
+			if fatal > 1 {
+				s.Fail("fatal-twice", "fatal-shutdown action fired more than once")
+			}
 		}
 	} else if fatal > 0 {
 		s.Fail("fatal-spurious", "fatal-shutdown fired without a grace period")
